@@ -102,37 +102,6 @@ NAMED_ROOTS = [r"^http_util::http_extract_path_params$", r"^extractor::query::ht
 HANDLER_CALL = r"handler::HttpHandlerFunc::handle_request$"
 
 
-def resolve_place(fn, op, max_hops=40):
-    """Canonical origin of an operand/place, following *unique* definitions and keeping field projections:
-    `x = move y` (x.p -> y.p), `x = Agg{a, b}` (x.1.p -> b.p; tuples, structs, closure/coroutine environments),
-    `r = &y` (r -> y, (*r).p -> y.p).  Stops at parameters, calls and locals with several definitions and returns a
-    copy operand of the place reached.  The engine's backward slice is field-insensitive across whole-local copies
-    (`env2 = env1; env2.0` reaches every captured value — which is exactly what helper inlining produces), so
-    rules that ask *which* captured value an argument is resolve it first and slice the result."""
-    pl = op["pl"] if "k" in op else op
-    if "k" in op and op["k"] not in ("copy", "move"):
-        return op
-    l, proj = pl["l"], list(pl["p"])
-    for _ in range(max_hops):
-        if 1 <= l <= fn.argc:
-            break
-        dd = fn.defs().get(l, [])
-        if len(dd) != 1 or dd[0][1] != "assign" or dd[0][2]["pl"]["p"]:
-            break
-        rv = dd[0][2]["rv"]
-        if rv["rv"] == "use" and rv["op"].get("k") in ("copy", "move"):
-            l, proj = rv["op"]["pl"]["l"], list(rv["op"]["pl"]["p"]) + proj
-        elif rv["rv"] == "agg" and proj and isinstance(proj[0], dict) and "f" in proj[0] and rv.get("agg") in ("closure", "coroutine", "tuple") \
-                and proj[0]["f"] < len(rv["ops"]) and rv["ops"][proj[0]["f"]].get("k") in ("copy", "move"):
-            o = rv["ops"][proj[0]["f"]]
-            l, proj = o["pl"]["l"], list(o["pl"]["p"]) + proj[1:]
-        elif rv["rv"] == "ref" and (not proj or proj[0] == "*"):
-            l, proj = rv["pl"]["l"], list(rv["pl"]["p"]) + proj[1:]
-        else:
-            break
-    return {"k": "copy", "pl": {"l": l, "p": proj}}
-
-
 def generic_route_handler(ctx, R):
     """The coroutine body of the one RouteHandler::handle_request impl that calls
     HttpHandlerFunc::handle_request (the generic HttpRouteHandler; not the stub).  A call moved into a private
@@ -366,3 +335,50 @@ def ok_sources(fn, local=0, depth=0, _seen=None):
         else:
             out.append({"k": "copy", "pl": {"l": local, "p": []}})
     return out
+
+
+def value_sources(fn, op, _seen=None):
+    """Operands a value comes from, looking through plain moves and through the *Ok side* of a Result that was
+    split by `?` or by a match: for `v = x?` / `Ok(v) => ..` only the origin of x's Ok payload counts (ok_sources),
+    so an error built on the other side (`Err(e) => Err(HttpError::for_bad_request(..))`, written as a match arm of
+    the same function or inlined from a helper) does not appear on the chain of the value.  Anything else is
+    returned unchanged, to be sliced by the caller."""
+    import json as _json
+    from .lib import operand_local
+    seen = _seen if _seen is not None else set()
+    if op.get("k") not in ("copy", "move"):
+        return [op]
+    pl = op["pl"]
+    key = _json.dumps(pl, sort_keys=True)
+    if key in seen or len(seen) > 200:
+        return [op]
+    seen.add(key)
+    l, proj = pl["l"], pl["p"]
+
+    def many(ops):
+        out = []
+        for o in ops:
+            for x in value_sources(fn, o, seen):
+                if x not in out:
+                    out.append(x)
+        return out
+    if len(proj) == 2 and isinstance(proj[0], dict) and proj[0].get("dc") in ("Continue", "Ok") and isinstance(proj[1], dict) and proj[1].get("f") == 0:
+        dd = [d for d in fn.defs().get(l, []) if not fn.blocks[d[0]]["cleanup"]]
+        if proj[0]["dc"] == "Continue" and len(dd) == 1 and dd[0][1] == "call" and (dd[0][2].get("callee") or "").endswith("ops::Try::branch"):
+            src = operand_local(dd[0][2]["args"][0])
+            if src is not None:
+                got = ok_sources(fn, src)
+                if got:
+                    return many(got)
+        elif proj[0]["dc"] == "Ok":
+            got = ok_sources(fn, l)
+            if got and got != [{"k": "copy", "pl": {"l": l, "p": []}}]:
+                return many(got)
+        return [op]
+    if proj or 1 <= l <= fn.argc:
+        return [op]
+    reach = fn.reachable(0)
+    dd = [d for d in fn.defs().get(l, []) if d[0] in reach and not fn.blocks[d[0]]["cleanup"]]
+    if dd and all(k == "assign" and not n["pl"]["p"] and n["rv"]["rv"] == "use" and n["rv"]["op"].get("k") in ("copy", "move") for _, k, n in dd):
+        return many([n["rv"]["op"] for _, k, n in dd])
+    return [op]
